@@ -319,7 +319,7 @@ where T: Ring + Bridge, for<'x> &'x T: RingOps<T>, T::O: OEuc {
 }
 
 pub fn run(ctx: &mut Ctx) {
-    let n = ctx.by_tier(120_000u64, 12_000_000);
+    let n = ctx.by_tier(360_000u64, 12_000_000);
     macro_rules! go { ($t:ty, $unb:expr) => {
         ctx.random_cases(&format!("{}/program", <$t as Bridge>::name()), n, |c, r| program::<$t>(c, r, $unb));
         ctx.random_cases(&format!("{}/trans", <$t as Bridge>::name()), n, |c, r| trans_history::<$t>(c, r, $unb));
